@@ -674,6 +674,8 @@ def _fill_coeff(old_coeffs, old_tlist, full_tlist, args=None, tol=1.0e-10):
     else:
         sp = CubicSpline(old_tlist, old_coeffs)
         new_coeff = sp(full_tlist)
-        new_coeff *= full_tlist <= old_tlist[-1]
-        new_coeff *= full_tlist >= old_tlist[0]
+        # outside its own grid a spline coefficient keeps the boundary
+        # sample, as the interpolation integrated by the solver does
+        new_coeff[full_tlist > old_tlist[-1]] = old_coeffs[-1]
+        new_coeff[full_tlist < old_tlist[0]] = old_coeffs[0]
     return new_coeff
